@@ -738,6 +738,7 @@ func oneCase(seed uint64, idx int, maxOps int) line {
 	table := w.newTable(appendMode)
 	dead := false
 	isForce := map[string]bool{}
+	wanted := map[string][]grule{} // the live table's chain map, for the fuel-bound check (c15_fuel_sufficient)
 
 	var ops, obs, sample []string
 	nops := 4 + r.intn(maxOps)
@@ -831,6 +832,7 @@ func oneCase(seed uint64, idx int, maxOps int) line {
 			table = w.newTable(appendMode)
 			dead = false
 			isForce = map[string]bool{}
+			wanted = map[string][]grule{}
 			tags["restart"] = true
 		case x < 40:
 			i := r.intn(len(desiredNames))
@@ -866,6 +868,9 @@ func oneCase(seed uint64, idx int, maxOps int) line {
 			sample = append(sample, fmt.Sprintf("UpdateChain %s %v force=%v", c, render(c, c, gs), force))
 			if !dead {
 				table.UpdateChain(&generictables.Chain{Name: c, Rules: rawRules(gs), ForceProgramming: force})
+				wanted[c] = gs
+				checkFuelBound(wanted)
+				tags["fuel-bound-checked"] = true
 			}
 		case x < 48:
 			c := desiredNames[r.intn(len(desiredNames))]
@@ -876,6 +881,7 @@ func oneCase(seed uint64, idx int, maxOps int) line {
 			sample = append(sample, "RemoveChain "+c)
 			if !dead {
 				table.RemoveChainByName(c)
+				delete(wanted, c)
 			}
 		case x < 62:
 			kc := kchain[r.intn(3)]
@@ -956,6 +962,46 @@ func oneCase(seed uint64, idx int, maxOps int) line {
 	sort.Strings(tl)
 	return line{Coq: coq, NT: successes >= 1 && rewrites >= 1 && (sawFault || tags["oob-edit"] || tags["k0:stale-owned-chain"] || tags["k0:owned-disturbed"] || tags["k0:hooks-present"]),
 		Key: k0coq + "|" + strings.Join(ops, ";"), Sample: map[string]any{"append_mode": appendMode, "k0": k0, "trace": sample}, Tags: tl}
+}
+
+// checkFuelBound: hypothesis of c15_fuel_sufficient on a wanted chain map: the reference graph is acyclic and
+// its longest-path rank (0 for absent chains) is at most the number of chains + 1.
+func checkFuelBound(m map[string][]grule) {
+	state := map[string]int{} // 1 = on stack, 2 = done
+	rank := map[string]int{}
+	var visit func(c string) int
+	visit = func(c string) int {
+		gs, ok := m[c]
+		if !ok {
+			return 0
+		}
+		if state[c] == 1 {
+			panic("C15 driver: cyclic chain reference graph generated at " + c)
+		}
+		if state[c] == 2 {
+			return rank[c]
+		}
+		state[c] = 1
+		r := 0
+		for _, g := range gs {
+			if g.ref != "" {
+				if v := visit(g.ref) + 1; v > r {
+					r = v
+				}
+			}
+		}
+		if r == 0 {
+			r = 1
+		}
+		state[c] = 2
+		rank[c] = r
+		return r
+	}
+	for c := range m {
+		if visit(c) > len(m)+1 {
+			panic("C15 driver: fuel bound violated")
+		}
+	}
 }
 
 func joinQ(xs []string) string {
